@@ -83,7 +83,7 @@ def backend_run(which):
             mod = env.mod("emu_sv.sv_backend")
             cls = mod.SVBackend
             cfgcls = env.mod("emu_sv.sv_config").SVConfig
-        k = env.choice("n_trajectories", [1, 2, 3, 5])
+        k = env.choice("n_trajectories", [1, 2, 3, 5, 32, 33, 65])
         tokens = [("seqdata", i) for i in range(k)]
         ran = []
         aggregated = {}
@@ -102,6 +102,8 @@ def backend_run(which):
         class FakeResults:
             @staticmethod
             def aggregate(lst):
+                # (Pulser's aggregate takes unweighted means: folding partial aggregates back in would be wrong)
+                aggregated.setdefault("calls", []).append(list(lst))
                 aggregated["list"] = list(lst)
                 return "AGG"
 
@@ -123,6 +125,7 @@ def backend_run(which):
             want = want[:-1]
         env.check(ran == want, f"{which}: every SequenceData is simulated exactly once, in order")
         env.check(aggregated.get("list") == [("result", i) for i in range(len(want))], f"{which}: Results.aggregate receives one result per simulation, in order")
+        env.check(len(aggregated.get("calls", [])) == 1, f"{which}: Results.aggregate is called exactly once, on the per-trajectory results themselves (n_trajectories={k})")
         env.check(out == "AGG", f"{which}: run() returns the aggregate")
 
     return fn
@@ -139,7 +142,7 @@ META = {
     "outside": [
         "mean / bag-union arithmetic of Results.aggregate and the shots-per-run bookkeeping (Pulser code)",
         "that Pulser's HamiltonianData produces reps summing to n_trajectories",
-        "more than 3 noisy samples / 3 repetitions / 5 trajectories",
+        "more than 3 noisy samples / 3 repetitions; n_trajectories other than 1, 2, 3, 5, 32, 33, 65",
     ],
     "assumptions": ["Pulser's samples expose trajectory.interaction_matrix.as_tensor(), trajectory.bad_atoms, samples, reps"],
 }
@@ -150,5 +153,5 @@ def cases(tier):
     for k in ([1, 2] if tier == "quick" else [1, 2, 3]):
         out.append(Case(f"reps_expansion_samples{k}", reps_expansion(k), covers=COVERS, bounds={"noisy_samples": k, "reps": "1..3 each"}, canaries=["one_per_sample"], weight=3**k))
     for w in ("mps", "sv"):
-        out.append(Case(f"run_{w}", backend_run(w), covers=COVERS, bounds={"n_trajectories": [1, 2, 3, 5]}, canaries=["drops_last"]))
+        out.append(Case(f"run_{w}", backend_run(w), covers=COVERS, bounds={"n_trajectories": [1, 2, 3, 5, 32, 33, 65]}, canaries=["drops_last"]))
     return out
